@@ -89,6 +89,14 @@ RegisterUncertainty(k) ==
                            !.Eps = IF ~est.reg \/ fu = <<>> THEN <<>> ELSE VarCaptureMatrix(fu, SrcPool[est.src])]
   /\ Log(Act("register_uncertainty", k, FALSE, FALSE))
 
+(* a registration that fails (upper bounds partly finite, partly infinite: rejected by the library): the    *)
+(* call raises and the object is exactly as it was -- in particular a later register_uncertainty re-derives *)
+(* Epsilon from the sources registered before                                                                *)
+RegisterSystemBad(k) ==
+  /\ Len(SrcPool[k]) >= 2
+  /\ est' = est
+  /\ Log(Act("register_system_bad", k, FALSE, FALSE))
+
 RegisterBounds(bk) ==
   LET bp == BoundPool[bk]
       n == Len(est.A[1])
@@ -237,6 +245,7 @@ Query == UNCHANGED est /\ Log(Act("query", 0, FALSE, FALSE))
 
 Register ==
   \/ \E k \in 1..Len(SrcPool), bk \in 1..Len(BoundPool) : RegisterSystem(k, bk)
+  \/ \E k \in 1..Len(SrcPool) : RegisterSystemBad(k)
   \/ \E bk \in 1..Len(BoundPool) : RegisterBounds(bk)
   \/ \E k \in 1..Len(KPool) : RegisterAdaptation(k)
   \/ \E k \in 1..Len(BlPool) : RegisterBaseline(k)
@@ -259,6 +268,7 @@ FrameOK ==
               => \A f \in {"bl", "blshape", "reg", "A", "lb", "ub", "treg", "tB", "W", "fitted", "nfit", "fu", "Eps", "src"} : ~Wrote(f))
         /\ (a.op = "register_baseline" => \A f \in {"K", "kshape", "reg", "A", "lb", "ub", "treg", "tB", "W", "fitted", "nfit", "fu", "Eps", "src"} : ~Wrote(f))
         /\ (a.op = "register_bounds" => \A f \in {"K", "kshape", "bl", "blshape", "reg", "A", "treg", "tB", "W", "fitted", "nfit", "fu", "Eps", "src"} : ~Wrote(f))
+        /\ (a.op = "register_system_bad" => UNCHANGED est)
         /\ (a.op = "register_system" => \A f \in {"K", "kshape", "bl", "blshape", "treg", "tB", "W", "fitted", "nfit", "fu"} : ~Wrote(f))
         /\ (a.op = "register_targets" => \A f \in {"K", "kshape", "bl", "blshape", "reg", "A", "lb", "ub", "fu", "Eps", "src"} : ~Wrote(f))
         /\ (a.op = "register_uncertainty" => \A f \in {"K", "kshape", "bl", "blshape", "reg", "A", "lb", "ub", "treg", "tB", "W", "fitted", "nfit", "src"} : ~Wrote(f))
